@@ -110,7 +110,22 @@ Definition pair_get_m (q T : ty) : option ty :=
   end.
 
 (** ** forward, forward_like *)
-Definition forward_m (T e : ty) : option ty := forward_e T e.
+(* forward.hpp, overload by overload:
+     forward(remove_reference_t<T>&  param) -> T&& { return static_cast<T&&>(param); }
+     forward(remove_reference_t<T>&& param) -> T&& { static_assert(not is_lvalue_reference_v<T>); return static_cast<T&&>(param); } *)
+Definition forward_body (T P : ty) : option ty :=
+  do r <- static_cast_ref (add_rref T) (named P); ret_as (add_rref T) r.
+Definition forward_ovl1 (T e : ty) : option ty :=
+  let P := mkty (cst T) RL in
+  if binds P e then forward_body T P else None.
+Definition forward_ovl2 (T e : ty) : option ty :=
+  let P := mkty (cst T) RR in
+  if binds P e then (if is_lref T then None (* static_assert *) else forward_body T P) else None.
+(* language ([over.ics.rank]): an rvalue argument prefers the rvalue-reference parameter whenever it can bind to it; an
+   lvalue argument can only bind to the first overload *)
+Definition forward_m (T e : ty) : option ty :=
+  if is_lref e then forward_ovl1 T e
+  else if binds (mkty (cst T) RR) e then forward_ovl2 T e else forward_ovl1 T e.
 
 Definition forward_like_m (T U : ty) : option ty :=
   let x := named U in                       (* U&& x *)
@@ -313,30 +328,7 @@ Definition tuple_cat_m (ts : list (list A)) : list A :=
   match ts with [] => [] | r :: tl => tuple_cat_go r tl end.
 End Values.
 
-(* tuple_cat with element types: how every result element is constructed (true = moved).  An operand is
-   (category of the operand expression, elements); an element is (declared type, value). *)
-Definition telem := (ty * Z)%type.
-Definition toperand := (ty * list telem)%type.
-(* forward_as_tuple(get<I>(etl::forward<T>(t))...): the new element type is the reference type returned by get *)
-Definition refs_of (o : toperand) : option (list telem) :=
-  do c <- perfect_fwd (fst o);
-  map_opt (fun e : telem => do g <- tuple_get_m c (fst e); Some (g, snd e)) (snd o).
-Definition concat2_t (r h : toperand) : option toperand :=
-  do a <- refs_of r; do b <- refs_of h; Some (RV, a ++ b).   (* the temporary tuple of references is a prvalue *)
-Fixpoint tuple_cat_go_t (result : toperand) (tail : list toperand) : option (list (Z * bool)) :=
-  match tail with
-  | [] => do g <- refs_of result;                                (* tuple{get<Is>(etl::forward<Result>(result))...} *)
-          Some (map (fun e : telem => (snd e, negb (is_lref (fst e)) && negb (cst (fst e)))) g)
-  | h :: tl => do r <- concat2_t result h; tuple_cat_go_t r tl
-  end.
-Definition tuple_cat_t_m (ts : list toperand) : option (list (Z * bool)) :=
-  match ts with [] => Some [] | r :: tl => tuple_cat_go_t r tl end.
-
-(* known finding KF-C20-tuple_cat-ctad: the result is built with class template argument deduction
-   (etl::tuple{...}), so the element types are the decayed argument types and a single argument that is itself a
-   tuple selects the copy deduction candidate *)
-Definition cat_result_kind_m (k : ty) : ty := mkty false RNone.
-Definition cat_single_nested_arity_m (inner_arity : nat) : nat := inner_arity.
+(* tuple_cat with element types: see the end of this file (it uses the constructor model) *)
 
 (* ================================================================================================ *)
 (** * (ii) inplace_function as a state machine *)
@@ -431,6 +423,10 @@ Definition invoke_thunk (stateless : list Z) (v : option Z) (p : cref) (arg : Z)
 Definition closure_ctor (w : wref) (id : Z) (s : state) : out state :=
   let s := set_vt s w (Some id) in
   match cells s (CW w) with Live _ _ => Bad OverLive | Dead => Good (set_cell s (CW w) (Live id 0)) end.
+(* inplace_function(T&& closure) with a null function pointer / null member pointer: _vtable = &empty_vtable; return;
+   nothing is constructed in the storage *)
+Definition null_target_ctor (w : wref) (s : state) : out state :=
+  match cells s (CW w) with Live _ _ => Bad OverLive | Dead => Good (set_vt s w None) end.
 (* inplace_function() / inplace_function(nullptr_t) *)
 Definition null_ctor (w : wref) (s : state) : out state :=
   match cells s (CW w) with Live _ _ => Bad OverLive | Dead => Good (set_vt s w None) end.
@@ -490,13 +486,16 @@ Inductive op :=
 | OConvCopy (w : nat) (t : Z)        (* Small tmp{Target{t}}; w.~F(); new (&w) F(tmp)       *)
 | OConvMove (w : nat) (t : Z)        (* Small tmp{Target{t}}; w.~F(); new (&w) F(move(tmp)) *)
 | OCtorTarget (w : nat) (t : Z)      (* w.~F(); new (&w) F(target) *)
-| OCtorNull (w : nat).               (* w.~F(); new (&w) F(nullptr) / F() *)
+| OCtorNull (w : nat)                (* w.~F(); new (&w) F(nullptr) / F() *)
+| OAssignNullFn (w : nat)            (* w = (R( * )(Args...)) nullptr    -- a null function pointer is not a target *)
+| OCtorNullFn (w : nat).             (* w.~F(); new (&w) F((R( * )(Args...)) nullptr) *)
 
 Inductive tok := TAck | TCall (r : Z) | TEmpty | TBool (b : bool) | TSkip.
 
 Definition in_range (n : nat) (o : op) : bool :=
   match o with
-  | OAssignTarget w _ | OReset w | OCall w _ | OBool w | OConvCopy w _ | OConvMove w _ | OCtorTarget w _ | OCtorNull w =>
+  | OAssignTarget w _ | OReset w | OCall w _ | OBool w | OConvCopy w _ | OConvMove w _ | OCtorTarget w _ | OCtorNull w
+  | OAssignNullFn w | OCtorNullFn w =>
       Nat.ltb w n
   | OCopyAssign w v | OMoveAssign w v | OCopyCtor w v | OMoveCtor w v | OSwap w v => Nat.ltb w n && Nat.ltb v n
   end.
@@ -538,6 +537,9 @@ Definition step_m (stateless : list Z) (n : nat) (s : state) (o : op) : out (sta
       Good (s, TAck)
   | OCtorTarget w t => run s <- dtor (WI w) s; run s <- closure_ctor (WI w) t s; Good (s, TAck)
   | OCtorNull w => run s <- dtor (WI w) s; run s <- null_ctor (WI w) s; Good (s, TAck)
+  | OAssignNullFn w =>
+      run s <- null_target_ctor WParam s; run s <- assign_body (WI w) s; Good (s, TAck)
+  | OCtorNullFn w => run s <- dtor (WI w) s; run s <- null_target_ctor (WI w) s; Good (s, TAck)
   end.
 
 (* what the harness observes after every step *)
@@ -706,3 +708,142 @@ Definition make_tuple_transfer_m (a : ty) : option built :=
 Definition forward_as_tuple_m (a : ty) : option (ty * built) :=
   let K := add_rref (deduce_fwd a) in
   do e <- perfect_fwd a; do r <- tuple_ctor_m K e; Some (K, r).
+
+(* ================================================================================================ *)
+(** * the call wrappers with any number of arguments *)
+Fixpoint map2_opt {X Y Z : Type} (f : X -> Y -> option Z) (l1 : list X) (l2 : list Y) : option (list Z) :=
+  match l1, l2 with
+  | [], [] => Some []
+  | a :: r1, b :: r2 => do c <- f a b; do r <- map2_opt f r1 r2; Some (c :: r)
+  | _, _ => None
+  end.
+(* the stored callable / bound-argument tuple as named inside the four cv-ref qualified call operators:
+   _func (& , const&) or etl::move(_func) (&&, const&&) *)
+Definition stored_as (w : ty) : option ty :=
+  match rf w with
+  | RL => Some (mkty (cst w) RL)
+  | RR => Some (move_e (mkty (cst w) RL))
+  | RNone => None
+  end.
+(* not_fn_t::operator()(Args&&... args) cv-ref  { return not etl::invoke(f | etl::move(f), etl::forward<Args>(args)...); } *)
+Definition notfn_call_all_m (w : ty) (args : list ty) : option (ty * list ty) :=
+  do f0 <- stored_as w;
+  do a1 <- map_opt perfect_fwd args;
+  invoke_fo_m f0 a1.
+(* reference_wrapper<T>::operator()(Args&&... args) const { return invoke(get(), etl::forward<Args>(args)...); } *)
+Definition refwrap_call_all_m (tconst : bool) (args : list ty) : option (ty * list ty) :=
+  do a1 <- map_opt perfect_fwd args;
+  invoke_fo_m (mkty tconst RL) a1.
+(* bind_front_t::operator()(CallArgs&&...) cv-ref -> bind_front_caller(_func | move(_func), _boundArgs | move(_boundArgs),
+   forward<CallArgs>(callArgs)...) -> apply(lambda, forward<BoundArgsTuple>(t)) -> invoke(lambda, get<I>(forward<Tuple>(t))...)
+   -> lambda(BoundArgs&&... boundArgs) -> invoke(forward<Func>(func), forward<BoundArgs>(boundArgs)..., forward<CallArgs>(callArgs)...);
+   the nbound bound arguments are stored as decay_t<BoundArgs> in a tuple *)
+Definition bindfront_call_all_m (w : ty) (nbound : nat) (args : list ty) : option (ty * list ty) :=
+  do f0 <- stored_as w;
+  do f1 <- perfect_fwd f0;
+  do a1 <- map_opt perfect_fwd args;          (* operator() -> bind_front_caller *)
+  do a2 <- map_opt perfect_fwd a1;            (* lambda -> invoke *)
+  do t0 <- stored_as w;
+  do t1 <- perfect_fwd t0;                    (* bind_front_caller -> apply *)
+  do t2 <- perfect_fwd t1;                    (* apply: get<I>(etl::forward<Tuple>(t)) *)
+  do bs <- map_opt (fun _ : nat => do g <- tuple_get_m t2 (mkty false RNone);
+                                   do g1 <- perfect_fwd g;       (* apply -> invoke -> lambda *)
+                                   perfect_fwd g1)               (* lambda: etl::forward<BoundArgs>(boundArgs) *)
+                   (seq 0 nbound);
+  invoke_fo_m f1 (bs ++ a2).
+(* inplace_function<R(Args...)>::operator() / function_ref<R(Args...)>::operator(): one parameter per argument *)
+Definition ipf_call_all_m (Ps args : list ty) : option (ty * list ty) :=
+  do ys <- map2_opt (fun P a => do r <- ipf_call_m P a; Some (snd r)) Ps args;
+  Some (LV, ys).
+Definition fref_call_all_m (fc : ty) (Ps args : list ty) : option (ty * list ty) :=
+  do ys <- map2_opt (fun P a => do r <- fref_call_m fc P a; Some (snd r)) Ps args;
+  do f <- perfect_fwd (mkty (cst fc) RL);
+  Some (f, ys).
+
+(* ================================================================================================ *)
+(** * the way back: how the wrappers return the callable's result *)
+(* r is the callable's declared return type (rf = RNone: a prvalue of type [const] A).  Language: the call expression has
+   type and category r; [ret_as R e] is "return e;" in a function declared to return R; decltype(auto) keeps r.
+   invoke_result_t<F, Args...> is decltype of the INVOKE expression, i.e. r. *)
+(* invoke(F&& f, Args&&... args) -> invoke_result_t<F, Args...> { return etl::forward<F>(f)(etl::forward<Args>(args)...); } *)
+Definition invoke_ret_m (r : ty) : option ty := ret_as r r.
+(* detail::invoke_memptr(...) -> decltype(auto) { return (obj.*f)(args...); } called from invoke *)
+Definition invoke_memptr_ret_m (r : ty) : option ty := do e <- ret_decltype_auto r; ret_as r e.
+(* apply(F&&, Tuple&&) -> decltype(auto) { return [&]<size_t... I>(index_sequence<I...>) -> decltype(auto) { return etl::invoke(...); }(...); } *)
+Definition apply_ret_m (r : ty) : option ty :=
+  do e0 <- invoke_ret_m r; do e1 <- ret_decltype_auto e0; ret_decltype_auto e1.
+(* reference_wrapper::operator()(Args&&...) const -> invoke_result_t<T&, Args...> { return invoke(get(), ...); } *)
+Definition refwrap_ret_m (r : ty) : option ty := do e0 <- invoke_ret_m r; ret_as r e0.
+(* bind_front_t::operator() -> invoke_result_t<Func cv-ref, BoundArgs cv-ref..., CallArgs...> { return bind_front_caller(...); }
+   bind_front_caller(...) -> decltype(auto) { return etl::apply(lambda, tuple); }
+   lambda(BoundArgs&&...) -> decltype(auto) { return etl::invoke(func, boundArgs..., callArgs...); }   (called by apply through invoke) *)
+Definition bindfront_ret_m (r : ty) : option ty :=
+  do e0 <- invoke_ret_m r;            (* the innermost invoke of the target *)
+  do e1 <- ret_decltype_auto e0;      (* lambda *)
+  do e2 <- apply_ret_m e1;            (* apply(lambda, tuple) *)
+  do e3 <- ret_decltype_auto e2;      (* bind_front_caller *)
+  ret_as r e3.                        (* operator() *)
+(* invoke_r<R>(F&&, Args&&...) -> R { return etl::invoke(...); }   requires is_invocable_r_v<R, F, Args...> *)
+Definition invoke_r_ret_m (R r : ty) : option ty := do e0 <- invoke_ret_m r; ret_as R e0.
+(* inplace_function<R(Args...)>: thunk [](storage_ptr_t, Args&&...) -> R { return etl::invoke_r<R>(...); };
+   operator()(Args...) const -> R { return _vtable->invoke_ptr(...); } *)
+Definition ipf_ret_m (R r : ty) : option ty :=
+  do e0 <- invoke_r_ret_m R r; do e1 <- ret_as R e0; ret_as R e1.
+(* function_ref<R(Args...)>: thunk +[](void*, Args...) -> R { return etl::invoke_r<R>( *func, ...); };
+   operator()(Args...) const -> R { return _callable(_obj, ...); } *)
+Definition fref_ret_m (R r : ty) : option ty :=
+  do e0 <- invoke_r_ret_m R r; do e1 <- ret_as R e0; ret_as R e1.
+
+(* ================================================================================================ *)
+(** * tuple_cat with element types *)
+(* An operand is (category of the operand expression, elements); an element is (declared type, value). *)
+Definition telem := (ty * Z)%type.
+Definition toperand := (ty * list telem)%type.
+(* forward_as_tuple(get<I>(etl::forward<T>(t))...): the new element type is the reference type returned by get *)
+Definition refs_of (o : toperand) : option (list telem) :=
+  do c <- perfect_fwd (fst o);
+  map_opt (fun e : telem => do g <- tuple_get_m c (fst e); Some (g, snd e)) (snd o).
+Definition concat2_t (r h : toperand) : option toperand :=
+  do a <- refs_of r; do b <- refs_of h; Some (RV, a ++ b).   (* the temporary tuple of references is a prvalue *)
+(* run<Ret>(result, head, tail...) = run<Ret>(concat(result, head), tail...);  run<Ret>(result) reads
+   get<Is>(etl::forward<Result>(result))... *)
+Fixpoint tuple_cat_go_refs (result : toperand) (tail : list toperand) : option (list telem) :=
+  match tail with
+  | [] => refs_of result
+  | h :: tl => do r <- concat2_t result h; tuple_cat_go_refs r tl
+  end.
+(* detail::tuple_cat_result_t<Tuples...>: tuple<tuple_element_t<I, remove_cvref_t<Tuple>>...> of every operand, joined *)
+Definition elem_kinds (o : toperand) : list ty := map fst (snd o).
+Definition tuple_cat_result_m (ts : list toperand) : list ty := concat (map elem_kinds ts).
+(* Ret(get<Is>(etl::forward<Result>(result))...): element i of declared type Ret_i is initialised by tuple's
+   constructor from the i-th reference *)
+Definition cat_final (Ks : list ty) (g : list telem) : option (list (Z * built)) :=
+  map2_opt (fun K (e : telem) => do b <- tuple_ctor_m K (fst e); Some (snd e, b)) Ks g.
+Definition tuple_cat_t_m (ts : list toperand) : option (list (Z * built)) :=
+  match ts with
+  | [] => Some []                                      (* run<Ret>() = Ret() *)
+  | r :: tl => do g <- tuple_cat_go_refs r tl; cat_final (tuple_cat_result_m ts) g
+  end.
+(* the result element type for an operand element declared with kind k, and the arity of tuple_cat(tuple<tuple<...>>) *)
+Definition cat_result_kind_m (k : ty) : ty := match tuple_cat_result_m [(LV, [(k, 0)])] with [r] => r | _ => k end.
+Definition cat_single_nested_arity_m (inner_arity : nat) : nat := length (tuple_cat_result_m [(LV, [(mkty false RNone, 0)])]).
+(* tuple_element_t<I, tuple<Ts...>>: tuple_leaf<I, T>::get_type returns type_identity<T> *)
+Definition tuple_element_kind_m (k : ty) : ty := k.
+
+(* ================================================================================================ *)
+(** * reference_wrapper: which arguments can be wrapped *)
+(* reference_wrapper<T>(U&& u): participates iff detail::FUN<T>(declval<U>()) is well-formed, with the overload set
+     FUN(T& t) noexcept -> T&;   void FUN(T&&) = delete;
+   language ([over.ics.rank]): an rvalue prefers the (deleted) rvalue-reference overload whenever it can bind to it *)
+Definition refwrap_ctor_wf_m (tconst : bool) (a : ty) : bool :=
+  binds (mkty tconst RL) a && negb (binds (mkty tconst RR) a).
+(* ref(T& t) [T deduced: X, or X const for a const argument],  ref(reference_wrapper<T>),  void ref(T const&&) = delete *)
+Definition ref_wf_m (a : ty) : bool :=
+  binds (mkty (cst a) RL) a && negb (binds (mkty true RR) a).
+(* cref(T const& t),  cref(reference_wrapper<T>),  void cref(T const&&) = delete *)
+Definition cref_wf_m (a : ty) : bool :=
+  binds (mkty true RL) a && negb (binds (mkty true RR) a).
+
+(* reference_wrapper around std::function<i64(i64)> adding one, and around a callable taking a std::string of |x| mod 7
+   characters: etl::invoke is called qualified, so these calls are not ambiguous with std::invoke (values only) *)
+Definition refwrap_std_m (x : Z) : Z * Z := (x + 1, Z.rem (Z.abs x) 7).
